@@ -16,7 +16,7 @@ func multiFault(c *fw.Ctx, n int, emit emitFn) {
 		var sb strings.Builder
 		sb.WriteString("JSIGHT 0.3\n")
 		k := 2 + r.Intn(4)
-		class := r.Intn(12)
+		class := r.Intn(13)
 		switch class {
 		case 0: // several self-recursive macros
 			for q := 0; q < k; q++ {
@@ -68,6 +68,12 @@ func multiFault(c *fw.Ctx, n int, emit emitFn) {
 			}
 		case 10: // several undefined tags / responses with unknown types
 			sb.WriteString("GET /t\n  Tags @a @b @c\n  200 @q\n  201 @w\n  202 [@e]\n")
+		case 12: // a regex type used by several types and through a union (valid document)
+			sb.WriteString("TYPE @rx regex\n  /[a-z]{3}-[0-9]{2}/\n")
+			for q := 0; q < k; q++ {
+				sb.WriteString(fmt.Sprintf("TYPE @u%d\n  {\n    \"k\": [\n      @rx\n    ]\n  }\n", q))
+			}
+			sb.WriteString("GET /u\n  200\n    {\n      \"v\": @u0 | @rx\n    }\n")
 		case 11: // allOf of several undefined / non-object types
 			sb.WriteString("TYPE @o\n  { // {allOf: [\"@x1\", \"@x2\", \"@x3\"]}\n  }\nTYPE @x2 any\n")
 		}
@@ -85,8 +91,9 @@ func C06(c *fw.Ctx) {
 	c.Assume("address dependence is sampled by 3 processes with ASLR on; time dependence is not separately provoked")
 	pool := c.Pool(false, 0)
 	type first struct {
-		sig string
-		n   int
+		sig  string
+		n    int
+		json []byte
 	}
 	seen := map[string]*first{}
 	c.RunJobs(pool, func(emit func(*proto.Job)) {
@@ -95,7 +102,6 @@ func C06(c *fw.Ctx) {
 				jj := *j
 				jj.ID = fmt.Sprintf("%s/%s#%d", label, j.ID, proc)
 				jj.Ops = []string{"json", "openapi"}
-				jj.HashOnly = true
 				jj.Repeat = reps
 				if proc > 0 {
 					jj.Repeat = 2
@@ -125,6 +131,9 @@ func C06(c *fw.Ctx) {
 				what = "output-" + strings.TrimPrefix(what, "out:")
 			}
 			sig := "nondeterministic:" + what
+			if d.OnlyExamples && regexUnionProject(j.Files) {
+				sig = "nondeterministic:" + sigRegexExample
+			}
 			if d.What == "err" && res.Err != nil {
 				sig += ":" + strings.ReplaceAll(errKey(res.Err.Msg), " ", "-")
 			}
@@ -139,8 +148,12 @@ func C06(c *fw.Ctx) {
 		if res.Panic != nil {
 			s += "panic:" + res.Panic.Func
 		}
+		var jsonBytes []byte
 		for _, o := range res.Outputs {
-			s += "|" + o.Op + "=" + o.Hash + o.Err
+			s += "|" + o.Op + "=" + string(o.Bytes) + o.Err
+			if o.Op == "json" {
+				jsonBytes = o.Bytes
+			}
 			if o.Panic != nil {
 				s += "panic:" + o.Panic.Func
 			}
@@ -148,12 +161,15 @@ func C06(c *fw.Ctx) {
 		maxMuLock.Lock()
 		f := seen[base]
 		if f == nil {
-			seen[base] = &first{sig: s, n: 1}
+			seen[base] = &first{sig: s, n: 1, json: jsonBytes}
 		} else {
 			f.n++
 			if f.sig != s {
 				maxMuLock.Unlock()
 				sig := "nondeterministic:across-processes"
+				if jsonBytes != nil && f.json != nil && exampleOnlyDiff(f.json, jsonBytes, j.Files) {
+					sig = "nondeterministic:" + sigRegexExample
+				}
 				if res.Err != nil {
 					sig += ":" + strings.ReplaceAll(errKey(res.Err.Msg), " ", "-")
 				}
